@@ -433,7 +433,7 @@ pub fn run(ctx: &Ctx) -> (Stats, Report) {
     st.merge(s);
     st.exhaustive_sections.push("all seconds of the day x {0,1,999999} us through JSON and bincode".into());
     for kind in [Kind::Ts, Kind::Ora, Kind::YM, Kind::DT, Kind::Time, Kind::Date] {
-        let vals = pools::pool(kind, seed, if ctx.thorough { 6_000_000 } else { 150_000 });
+        let vals = pools::pool(kind, seed, if ctx.thorough { 6_000_000 } else { 500_000 });
         let vref = &vals;
         let s = par_sweep(vals.len() as u64, 2048, |range, st| {
             for k in range {
@@ -534,7 +534,7 @@ pub fn run(ctx: &Ctx) -> (Stats, Report) {
             payloads.push(x);
         }
         let mut sm = SplitMix(seed ^ 0x1d ^ kind.index() as u64);
-        for k in 0..(if ctx.thorough { 2_000_000 } else { 60_000 }) {
+        for k in 0..(if ctx.thorough { 2_000_000 } else { 200_000 }) {
             payloads.push(match k % 4 {
                 0 => sm.next() as i64 as i128,
                 1 => sm.range_i128(lo, hi) + ((sm.below(9) as i128 - 4) << [8, 16, 32, 64][sm.below(4) as usize]),
@@ -568,7 +568,7 @@ pub fn run(ctx: &Ctx) -> (Stats, Report) {
         let toks = tokenize(layout(kind)).unwrap();
         let vref = &vals;
         let tref = &toks;
-        let per = if ctx.thorough { 600 } else { 48 };
+        let per = if ctx.thorough { 600 } else { 120 };
         let s = par_sweep(vals.len() as u64, 64, |range, st| {
             for k in range {
                 let v = &vref[k as usize];
@@ -634,7 +634,7 @@ pub fn run(ctx: &Ctx) -> (Stats, Report) {
         let s = pt_run(
             "C15/histories",
             seed,
-            (if ctx.thorough { 2_000_000 } else { 120_000 }) / THREADS as u32,
+            (if ctx.thorough { 2_000_000 } else { 480_000 }) / THREADS as u32,
             THREADS,
             || proptest::collection::vec((0u8..7, 0usize..6, any::<u32>(), any::<u32>()), 2..=10),
             |steps: &Vec<(u8, usize, u32, u32)>, st: &mut Stats| {
@@ -665,7 +665,7 @@ pub fn run(ctx: &Ctx) -> (Stats, Report) {
 
     // concurrent histories: the same round trips from 16 threads at once
     {
-        let iters = if ctx.thorough { 1_500_000 } else { 60_000 };
+        let iters = if ctx.thorough { 1_500_000 } else { 240_000 };
         for rep in 0..4u64 {
             match check_concurrent(seed ^ mix64(rep), THREADS, iters / 4) {
                 Ok(n) => {
